@@ -65,10 +65,10 @@ def enum_cases(tier, shard, nshards):
 @st.composite
 def cases(draw, tier):
     if draw(st.integers(0, 2)) == 0:
-        cfg = draw(mg.swapper_config(tier, max_extent=7))
+        cfg = draw(mg.swapper_config(tier, max_extent=7, allow_empty=True))
         start = cfg["start"]
     else:
-        cfg = draw(mg.handler_config(tier, min_dims=3, max_extent=7))
+        cfg = draw(mg.handler_config(tier, min_dims=3, max_extent=7, allow_empty=True))
         start = draw(st.sampled_from([n for n, _ in cfg["layouts"]]))
     names = [n for n, _ in mg.all_layouts(cfg)]
     nl = len(names)
